@@ -386,7 +386,7 @@ pub fn run(r: &mut Runner) {
         });
     }
     // ---- 64-bit and 128-bit
-    let v64 = ints64(if quick { 3 } else { 4 });
+    let v64 = ints64(if quick { 3 } else { 5 });
     let n64 = v64.len();
     r.par("from 64-bit", n64.div_ceil(1024), 2 * n64 as u64, |c, l| {
         for i in (c * 1024)..((c + 1) * 1024).min(n64) {
@@ -394,7 +394,7 @@ pub fn run(r: &mut Runner) {
             rec.record(l, (1 << 41) + 2 * i as u64 + 1, from_i64(v64[i] as i64));
         }
     });
-    let v128 = ints128(if quick { 3 } else { 4 });
+    let v128 = ints128(if quick { 3 } else { 5 });
     let n128 = v128.len();
     r.par("from 128-bit", n128.div_ceil(1024), 2 * n128 as u64, |c, l| {
         for i in (c * 1024)..((c + 1) * 1024).min(n128) {
